@@ -1,7 +1,7 @@
 """C01 - preconditions gate every call: the body runs iff the effective precondition holds."""
 from typing import Any, Dict, List, Tuple
 
-from vfw.build import RT, get_built, invoke, identify
+from vfw.build import RT, get_built, invoke, identify, raised_types
 from vfw.hlib import Tag, fresh, note, conc
 from vfw.hspec import B, H, I, bind
 from vfw.prog import ASYNC_KINDS, ALL_KINDS, INV_AROUND, CTOR_KINDS, Level, Prog, effective, expect
@@ -52,7 +52,7 @@ def run_pre(kind: str, is_async: bool, mode: str, n0: int, d1: int, n1: int, sur
     rt = RT(tv=tv, body=body, error_mode=mode)
     built.rt = rt
 
-    kinds_exc = (Tag,) if mode in ("factory", "falsy_factory") else (AssertionError,)
+    kinds_exc = raised_types(built)
     try:
         res = fresh(invoke, built, x)
         raised = None
@@ -203,16 +203,18 @@ def harnesses(tier: str) -> List[H]:
                         truth3 + [B("t3")] + ([B("t4")] if tier == "thorough" else []) + \
                         [I("x", -4, 12), I("thr", -4, 12)]
                     size = (n0hi + 1) * 3 * 3 * 4 * 3
-                if is_async:
+                with_amode = is_async and (tier == "quick" or mode == "factory")
+                if with_amode:
                     params = params + [I("amode", 0, 3)]
                     size *= 4
-                out.append(H(name, _mk(kind, is_async, mode, params), params, tiers=(tier,), timeout=240,
+                out.append(H(name, _mk(kind, is_async, mode, params), params, tiers=(tier,),
+                             timeout=240 if tier == "quick" else 2400,
                              family="kind={} async={} error={}; own stack 0..{}, optional subclass level "
                                     "(absent / not overriding / overriding with 0..2 own), surround in "
                                     "{{none, post, post+snapshot, invariant}}, truth rendering in "
                                     "{{bool, int x-thr, x>thr}}{}".format(
                                         kind, is_async, mode, n0hi,
                                         "; conditions/captures written as {plain, coroutine function, plain returning a "
-                                        "coroutine, plain returning a non-coroutine awaitable}" if is_async else ""),
+                                        "coroutine, plain returning a non-coroutine awaitable}" if with_amode else ""),
                              family_size=size))
     return out
